@@ -1063,6 +1063,24 @@ def gen_blindspot_concat_cases(ctx, pseed, cid0):
     return cases
 
 
+def check_empty_call(ctx):
+    """no files at all: the code evaluates args[0] first and raises IndexError; the model mirrors it"""
+    from enspara.util import load as L
+    variants = [('plain', {}, None), ('processes', {'processes': 2}, None), ('hint', {'lengths': []}, []),
+                ('args', {'args': []}, None), ('kwargs', {'stride': 2}, None)]
+    model = ctx.driver([{'op': 'C15.concat', 'specs': [], 'hint': h, 'order': []} for _, _, h in variants])
+    for (name, kw, _), m in zip(variants, model):
+        case = {'kind': 'concat-empty', 'variant': name}
+        ctx.case(case, nontrivial=False, tags=['files=0'])
+        try:
+            res = L.load_as_concatenated([], **kw)
+            real = 'ok %r' % (res,)
+        except Exception as e:  # noqa
+            real = _err_kind(e)
+        if m.get('error') != real:
+            ctx.disagreement('load_as_concatenated([]) (%s): code %s, model %s' % (name, real[:60], m), case)
+
+
 # --------------------------------------------------------------------------- mpi/io.py reuse (world size 1)
 
 def check_mpi_reuse(ctx, tmp):
@@ -1126,6 +1144,7 @@ def run(ctx):
         pools = {}
         for case in gen_concat_cases(ctx):
             check_concat(ctx, case, tmp, pools)
+        check_empty_call(ctx)
         t3 = time.time()
         check_mpi_reuse(ctx, tmp)
         ctx.note('phase_seconds', {'ra': round(t1 - t0, 1), 'h5': round(t2 - t1, 1),
@@ -1158,6 +1177,8 @@ def replay(ctx, data):
             names = [_expected_key('arr', i, n) for i in range(n)]
             if sorted(names) != names:
                 ctx.violation('zero-padded key names do not sort in row order (python sorted)', data)
+        elif kind == 'concat-empty':
+            check_empty_call(ctx)
         elif kind in ('mpi-h5', 'mpi-trj'):
             check_mpi_reuse(ctx, tmp)
         else:
